@@ -16,6 +16,23 @@ CLAIMED = {
                      'arithmetic of scan() on bit streams.', ref='5 (C14)'),
 }
 
+CLAIMED.update({
+    'C11': dict(cat='other', tech='interprocedural lock typestate, path-sensitive conservation-law dataflow, symbolic capacity comparison, CFG cut rules on LLVM IR',
+                text='Decides the safety skeleton the termination argument rests on, on every path and in every calling '
+                     'context: monitor discipline (no double lock / unlock of unheld mutex, role contracts of tasks, '
+                     'predicates and callbacks, acyclic lock order), conservation of worker/input/output tokens on every '
+                     'path of every task, callback and I/O loop in all three modes, queue capacities versus token totals '
+                     'and threshold reservations, wake-up discipline, reservation thresholds, stale-tolerant head-of-line '
+                     'tests. Liveness under every interleaving is NOT decided (needs interleaving exploration).',
+                ref='5 (C11)'),
+    'C12': dict(cat='other', tech='static lockset (Eraser) rule over a derived thread/phase model + ownership typestate for heap blocks',
+                text='Every pair of conflicting accesses to a mutable global that may run in parallel (thread classes, '
+                     'multiplicities and create/join phases are derived from the IR) shares a mutex; the parse-token baton '
+                     'protecting `par` is verified structurally; unlocked accesses to heap blocks are legal only while the '
+                     'task exclusively owns the block. Sound for file-scope state under the stated, checked assumptions; '
+                     'codec-internal heap state is covered only through ownership of its container.', ref='5 (C12)'),
+})
+
 NA = {
     'C01': 'round-trip equality is a numerical fact about RLE/BWT/MTF/Huffman and its inverse over all byte strings; '
            'no sound static argument in reach bounds it (DESIGN.md section 6); its shape-level fragments are decided '
